@@ -115,6 +115,10 @@ def apply_mutation(obj, mut, objs):
                 t.qubit = newp[0]
         else:
             raise ValueError(cls)
+    elif kind == "rotvec":
+        obj.ntheta[mut["slot"] % 3] += 0.75                                      # in-place edit of the rotation vector
+    elif kind == "time":
+        obj.t = mut["value"]
     elif kind == "angle":
         if cls == "PhaseFactorGate":
             obj.phi = mut["value"]
@@ -144,7 +148,11 @@ def possible_mutations(desc):
     if k == "ctrl":
         return []
     if k == "single":
+        if g["cls"] == "RotationGate":
+            return ["rebind", "rotvec", "rotvec"]
         return ["rebind"] + (["angle"] if g["args"] else [])
+    if k == "timeevo":
+        return ["time"]
     if k == "general":
         return ["rebind", "array"]
     if k == "iswap":
@@ -420,6 +428,14 @@ def gen_history(tier, rng, nmax, views_ok):
             k = rng.randint(0, min(2, len(allp)))
             handles.append({"gate": {"kind": "ctrl", "cls": rng.choice(["barrier", "measure"])}, "particles": [list(p) for p in rng.sample(allp, k)]})
             continue
+        if rng.random() < 0.08:
+            # a time-evolution gate on all sites of one (qubit) field of at most 3 sites
+            cand = [(fid, s_) for fid, s_, _ in defs if fid % 2 == 0 and s_ <= 3]
+            if cand:
+                fid, s_ = rng.choice(cand)
+                terms = [["".join(rng.choice("IXYZ") for _ in range(s_)), rng.choice([0.5, -0.25, 1.0, rng.uniform(-1, 1)])] for _ in range(rng.randint(1, 3))]
+                handles.append({"gate": {"kind": "timeevo", "fid": fid, "terms": terms, "t": rng.uniform(-2, 2)}, "particles": [[fid, i] for i in range(s_)]})
+                continue
         gd, m = c04.rand_gate_desc(rng, min(len(allp), 3))
         handles.append({"gate": gd, "particles": [list(p) for p in rng.sample(allp, m)]})
     # current particles per handle (to keep rebinds valid most of the time)
@@ -457,7 +473,7 @@ def gen_history(tier, rng, nmax, views_ok):
                     p = rng.choice(free)
                 mut["particles"] = [list(p)]
                 cur[h] = cur[h] + [p]                 # conservative: treat as occupied from now on
-            if kind == "angle":
+            if kind in ("angle", "time"):
                 mut["value"] = rng.uniform(-3, 3)
             ops.append(["mutate", h, mut])
     return {"op": "circuit.history", "field_defs": defs, "order": order, "handles": handles, "ops": ops, "views": views_ok}
